@@ -17,12 +17,12 @@ Local Open Scope N_scope.
 (** The model's functions have the shape the current source has (translator tie): receiver calls,
     conditions and returns of every mirrored function, in source order. *)
 Example c39_code_shape_tie :
-  (c39_trace_AddBlock, c39_trace_SubmitBlock, c39_trace_saveBlock, c39_trace_submitBlock,
+  (c39_trace_AddBlock, c39_trace_AddHeader, c39_trace_AddHeaders, c39_trace_SubmitBlock, c39_trace_saveBlock, c39_trace_submitBlock,
    c39_trace_saveBlockToBlockStore, c39_trace_saveBlockToStateStore, c39_trace_saveBlockToEventStore,
    c39_trace_verifyHeader, c39_trace_VerifyBlock, c39_trace_VerifyHeader, c39_trace_VerifyMultiSignature,
    c39_trace_BlockDeserialization, c39_trace_AddStateMerkleTreeRoot, c39_trace_AddBlockMerkleTreeRoot)
   =
-  (model_trace_AddBlock, model_trace_SubmitBlock, model_trace_saveBlock, model_trace_submitBlock,
+  (model_trace_AddBlock, model_trace_AddHeader, model_trace_AddHeaders, model_trace_SubmitBlock, model_trace_saveBlock, model_trace_submitBlock,
    model_trace_saveBlockToBlockStore, model_trace_saveBlockToStateStore, model_trace_saveBlockToEventStore,
    model_trace_verifyHeader, model_trace_VerifyBlock, model_trace_VerifyHeader, model_trace_VerifyMultiSignature,
    model_trace_BlockDeserialization, model_trace_AddStateMerkleTreeRoot, model_trace_AddBlockMerkleTreeRoot).
@@ -53,8 +53,8 @@ Section C39.
       submit_block_entry mroot bk_addr io st b r = (st', o) -> o <> Added -> ~ io_error o -> st' = st.
   Proof. exact (submit_block_entry_unchanged mroot bk_addr io). Qed.
 
-  (** 2. THE PROPERTY.  On a well-formed ledger (no header sync in progress; the stored headers are
-      those of the chain up to the tip), a block received from the network that has any one of
+  (** 2. THE PROPERTY.  On a well-formed ledger (the stored headers are those of the chain up to the
+      tip; the header cache — header-first sync — holds only headers above the tip), a block received from the network that has any one of
       the defects — wrong height, wrong previous hash, timestamp not above the tip's, wrong block
       root, insufficient valid signatures, wrong bookkeeper set, bad transaction root, duplicated
       transaction, wrong state root — is not added, the outcome is a validity error (an error
@@ -93,16 +93,51 @@ Section C39.
     forall st b sroot ex st',
       wf st -> receive_block mroot txroot bk_addr io st b sroot ex = (st', Added) ->
       ~ header_defect mroot bk_addr st (b_hdr b) /\ ~ content_defect txroot b /\ ~ state_defect b sroot ex /\
-      hd_prev (b_hdr b) = cur_hash st /\ wf st'.
+      hd_prev (b_hdr b) = cur_hash st /\ (cache_clear_of st b -> wf st').
   Proof. exact (added_only_if_valid mroot txroot bk_addr io). Qed.
 
+  (** [cache_clear_of st b]: the header cache holds, at the height of [b], nothing but (possibly)
+      the header of [b] itself — true when there is no header sync, and during a header-first sync
+      of the same chain. *)
   Theorem c39_wf_invariant :
     wf empty_ledger /\
-    (forall g r st, init_genesis mroot io g r = (st, Added) -> wf st) /\
-    (forall st b sroot ex st' o, wf st -> add_block mroot bk_addr io st b sroot ex = (st', o) -> ~ io_error o -> wf st').
+    (forall g r st, init_genesis mroot io g r = (st, Added) -> wf st /\ hdr_cache st = []) /\
+    (forall st b sroot ex st' o, wf st -> add_block mroot bk_addr io st b sroot ex = (st', o) -> ~ io_error o ->
+       (o = Added -> cache_clear_of st b) -> wf st') /\
+    (forall st hd st', wf st -> add_header bk_addr st hd = (st', None) -> cur_height st < hd_height hd -> wf st').
   Proof.
-    split; [exact wf_empty|]. split; [exact (init_genesis_wf mroot io)|exact (add_block_wf mroot bk_addr io)].
+    split; [exact wf_empty|]. split; [exact (init_genesis_wf mroot io)|].
+    split; [exact (add_block_wf mroot bk_addr io)|exact (add_header_wf bk_addr)].
   Qed.
+
+  (** 3b. HEADER-FIRST SYNC.  AddHeader: a header that fails any header check is refused and the
+      ledger (header cache, header index, everything) is unchanged ... *)
+  Theorem c39_invalid_header_rejected :
+    forall st hd, hd_height hd <> 0 -> ~ header_ok bk_addr st hd ->
+      exists e, add_header bk_addr st hd = (st, Some e).
+  Proof. exact (invalid_header_rejected bk_addr). Qed.
+
+  (** ... acceptance of a block never depends on the header cache content: AddBlock runs
+      verifyHeader again in full; replacing the cache by ANY other cache that answers the
+      predecessor lookup the same way gives the same outcome and the same ledger up to the cache.
+      In particular a header with the same hash (same unsigned fields) accepted earlier by
+      AddHeader does not let a block with missing or foreign signatures through. *)
+  Theorem c39_header_cache_irrelevant :
+    forall st c b sroot ex st1 o1,
+      assoc c (hd_prev (b_hdr b)) = assoc (hdr_cache st) (hd_prev (b_hdr b)) ->
+      add_block mroot bk_addr io st b sroot ex = (st1, o1) ->
+      exists st2, add_block mroot bk_addr io (set_hdr_cache st c) b sroot ex = (st2, o1) /\
+                  set_hdr_cache st2 [] = set_hdr_cache st1 [].
+  Proof. exact (header_cache_irrelevant mroot bk_addr io). Qed.
+
+  (** ... and after the valid next header went through AddHeader, a defective block offered to
+      AddBlock is rejected and the ledger (with that header in cache and index) is unchanged. *)
+  Theorem c39_header_first_block_rejected :
+    forall st hv st1 b sroot ex,
+      wf st -> add_header bk_addr st hv = (st1, None) -> cur_height st < hd_height hv ->
+      header_defect mroot bk_addr st1 (b_hdr b) \/ state_defect b sroot ex ->
+      exists o, add_block mroot bk_addr io st1 b sroot ex = (st1, o) /\ o <> Added /\ ~ io_error o.
+  Proof. exact (header_first_block_rejected mroot bk_addr io). Qed.
 
   (** 4. A header changed after signing (every signature still the one made for another header
       hash) is rejected on any ledger state, whatever else is right. *)
@@ -178,6 +213,9 @@ Print Assumptions c39_invalid_block_rejected_addblock.
 Print Assumptions c39_invalid_block_rejected_submitblock.
 Print Assumptions c39_added_only_if_valid.
 Print Assumptions c39_wf_invariant.
+Print Assumptions c39_invalid_header_rejected.
+Print Assumptions c39_header_cache_irrelevant.
+Print Assumptions c39_header_first_block_rejected.
 Print Assumptions c39_unsigned_mutation_rejected.
 Print Assumptions c39_valid_block_accepted.
 Print Assumptions c39_validators_agree.
@@ -201,6 +239,11 @@ Module Instance.
   (* next block whose header announces tx root 999 for the transactions [32] (block root and
      signature consistent with the announced root) *)
   Definition b2_bad_txroot : block := mkBlock (mkHeader 4 2 2 12 999 103 7 [5] [SigOk 5 4]) [32].
+  (* header-first sync on st1: the valid next header hv (hash 5) goes through AddHeader; then a
+     block with the SAME hash and unsigned fields but a foreign signature is offered *)
+  Definition hv : header := mkHeader 5 2 2 12 200 103 7 [5] [SigOk 5 5].
+  Definition st1h : ledger := fst (add_header bk_addr st1 hv).
+  Definition b2_same_hash_foreign_sig : block := mkBlock (mkHeader 5 2 2 12 200 103 7 [5] [SigOk 9 5]) [].
 End Instance.
 
 (** The hypotheses of the property theorem are satisfiable by a non-trivial ledger (genesis plus
@@ -216,8 +259,9 @@ Proof.
   assert (H1 : add_block Instance.mroot Instance.bk_addr Instance.io Instance.st0 Instance.b1 52 (Some Instance.r1)
                = (Instance.st1, Added)) by (vm_compute; reflexivity).
   split; [|split; [|split; [|split]]].
-  - destruct (c39_wf_invariant Instance.mroot Instance.bk_addr Instance.io) as (_ & Hg & Ha).
-    eapply Ha; [eapply Hg; exact H0|exact H1|intros [s X]; discriminate].
+  - destruct (c39_wf_invariant Instance.mroot Instance.bk_addr Instance.io) as (_ & Hg & Ha & _).
+    destruct (Hg _ _ _ H0) as [Hw0 Hc0].
+    eapply Ha; [exact Hw0|exact H1|intros [s X]; discriminate|intros _; apply cache_clear_of_nil; exact Hc0].
   - vm_compute; discriminate.
   - vm_compute; reflexivity.
   - eapply D_timestamp_not_increasing with (tip := b_hdr Instance.b1); vm_compute; [reflexivity|discriminate].
@@ -237,3 +281,14 @@ Proof.
   split; [|split]; [|vm_compute; reflexivity|vm_compute; reflexivity].
   apply D_bad_tx_root. vm_compute. discriminate.
 Qed.
+
+(** Header-first sync, concretely: after AddHeader accepted the valid header [hv], the block with
+    the same hash but a foreign signature is refused (and the valid block is accepted). *)
+Example c39_header_first_nonvacuous :
+  add_header Instance.bk_addr Instance.st1 Instance.hv = (Instance.st1h, None) /\
+  Instance.st1h <> Instance.st1 /\
+  add_block Instance.mroot Instance.bk_addr Instance.io Instance.st1h Instance.b2_same_hash_foreign_sig 0
+            (Some (mkExec 53 54 [] [])) = (Instance.st1h, Rejected ESigVerify) /\
+  snd (add_block Instance.mroot Instance.bk_addr Instance.io Instance.st1h (mkBlock Instance.hv []) 0
+                 (Some (mkExec 53 54 [] []))) = Added.
+Proof. split; [|split; [|split]]; vm_compute; try reflexivity; discriminate. Qed.
